@@ -34,17 +34,17 @@ type jqCase struct {
 }
 
 type runner struct {
-	r       *core.Run
-	sp      *spec
-	s       *fqrun.Session
-	group   *decode.Group
-	fast    []*jqCase
-	pub     []*jqCase
-	fastLen int
-	pubLen  int
+	r        *core.Run
+	sp       *spec
+	s        *fqrun.Session
+	group    *decode.Group
+	fast     []*jqCase
+	pub      []*jqCase
+	fastLen  int
+	pubLen   int
 	progFast string
 	progPub  string
-	verbose bool
+	verbose  bool
 }
 
 // The drivers are compiled once per batch and iterate over the cases as data.
